@@ -5,7 +5,9 @@ import Driver.Util
 /-! engine `timed`: trace acceptor for the C07 runs of the `sched` harness (virtual clock, scripted
     hosts, watchdog).  Times are seconds since the start of the run.
 
-    init <if|while> <f> <ct> <ut> <sopt> <selfcheck> <stopwdog>   start a new trace              -> ok
+    init <if|while> <f> <ct> <ut> <sopt> <selfcheck> <stopwdog> [<killafter>]   start a new trace -> ok
+                                              (killafter = 1: the model variant `Cfg.killAfter`, the repair of
+                                              F07-TEARDOWN-WAIT (a): grace wait + SIGKILL before rcmd_destroy)
     host <ok|refuse|hang> <d> <out> <err> [<life|-> <grace|->]
                                               one target's script, in target order; a stream is `-` or
                                               a comma list of <t|->:<dN|e|x>  (data N bytes, eof, error);
@@ -106,7 +108,7 @@ def showHost (h : Host) : String :=
   let d := match h.death with
     | none => "never"
     | some d => toString d
-  s!"{showPhase h.ph}/{showRes h.res}/s{h.start}/c{h.conn}/i{h.intr}/o{h.out.got}{if h.out.closed then "c" else ""}/e{h.err.got}{if h.err.closed then "c" else ""}/death={d}{if h.reaped then "/reaped" else ""}"
+  s!"{showPhase h.ph}/{showRes h.res}/s{h.start}/c{h.conn}/i{h.intr}/o{h.out.got}{if h.out.closed then "c" else ""}/e{h.err.got}{if h.err.closed then "c" else ""}/death={d}{if h.reaped then "/reaped" else ""}{if h.hold > 0 then s!"/hold={h.hold}" else ""}"
 def showSt (s : St) : String :=
   s!"now={s.now} wake={s.wake} tc={s.fan.tc} i={s.fan.i} hosts={" ".intercalate (s.hs.map showHost)}"
 
@@ -172,6 +174,14 @@ def stepLine (a : Acc) (line : String) : Acc × String :=
     | some f, some ct, some ut =>
       ({ st := none, dead := false, v := if v = "if" then .ifWait else .whileWait, f := f,
          cfg := { ct := ct, ut := ut, sopt := sopt = "1", selfCheck := sc = "1", stopWdog := sw = "1" }, scripts := [],
+         k := false, nz := [], exited := false }, "ok")
+    | _, _, _ => (a, "bad-line")
+  | ["init", v, f, ct, ut, sopt, sc, sw, ka] =>
+    match f.toNat?, ct.toNat?, ut.toNat? with
+    | some f, some ct, some ut =>
+      ({ st := none, dead := false, v := if v = "if" then .ifWait else .whileWait, f := f,
+         cfg := { ct := ct, ut := ut, sopt := sopt = "1", selfCheck := sc = "1", stopWdog := sw = "1",
+                  killAfter := ka = "1" }, scripts := [],
          k := false, nz := [], exited := false }, "ok")
     | _, _, _ => (a, "bad-line")
   | ["host", k, d, o, e] => addHost a k d o e "0" "0"
